@@ -209,6 +209,14 @@ def check(ctx: Ctx):
                       f"{f.name}: get_next_assignment(own variable, .., own constraints, .., own bound, ..)", f, c, "")
         ctx.check(sorted(got) == sorted(exp), "R-PATH", f"{f.name}: the search resumes after the right value on the right path", f, calls[0] if calls else f.node,
                   f"expected (current value, path) pairs {exp}, found {got}")
+    # the only pruning is the one of get_next_assignment: in both handlers the candidate comes from that call alone, made unconditionally
+    for f, var in ((bw, "next_val"),):
+        defs = [a for a in ast.walk(f.node) if isinstance(a, (ast.Assign, ast.AugAssign, ast.AnnAssign)) and any(norm(t_) == var for t_ in (a.targets if isinstance(a, ast.Assign) else [a.target]))]
+        okc = len(defs) == 1 and defs[0] in f.node.body and isinstance(defs[0].value, ast.Call) and call_name(defs[0].value) == "get_next_assignment"
+        extra = next((d for d in defs if not (isinstance(getattr(d, "value", None), ast.Call) and call_name(d.value) == "get_next_assignment") or d not in f.node.body), None)
+        ctx.check(okc, "R-PATH", f"{f.name}: the next candidate is whatever get_next_assignment returns (one unconditional call, no other binding)", f, extra or (defs[0] if defs else f.node),
+                  "skipping the scan of the remaining values, or discarding its result, under a local condition (path cost against the bound, a bound of 0, ..) prunes "
+                  "sub-trees that may hold the optimum: get_next_assignment already compares every candidate with the bound in the direction of the objective")
     # ---- next assignment ---------------------------------------------------------------------------------
     _next(ctx, repo, gna)
     # ---- bound -------------------------------------------------------------------------------------------
@@ -370,6 +378,10 @@ def _next(ctx, repo, gna):
 _S = "pydcop/algorithms/syncbb.py"
 _OG = "pydcop/computations_graph/ordered_graph.py"
 VARIANTS = [
+    ("backward_prunes_on_own_path_cost", _S, "        next_val = get_next_assignment(\n            self.variable,\n            val,\n            self.constraints,\n            current_path[:-1],\n            self.upper_bound,\n            self.mode,\n        )\n        if next_val is not None:",
+     "        next_val = None\n        if self.mode == \"max\" or sum(c for _, _, c in current_path) < self.upper_bound:\n            next_val = get_next_assignment(\n                self.variable,\n                val,\n                self.constraints,\n                current_path[:-1],\n                self.upper_bound,\n                self.mode,\n            )\n        if next_val is not None:", "break", "R-PATH"),
+    ("first_variable_stops_on_zero_bound", _S, "            self.upper_bound,\n            self.mode,\n        )\n        if next_val is not None:\n            new_val, new_cost = next_val\n            new_path = current_path[:-1]",
+     "            self.upper_bound,\n            self.mode,\n        )\n        if self.previous_var is None and self.upper_bound == 0:\n            next_val = None\n        if next_val is not None:\n            new_val, new_cost = next_val\n            new_path = current_path[:-1]", "break", "R-PATH"),
     ("tie_replaces_best", _S, "                    if self.mode == \"min\" and path_bound + cost < best_bound:", "                    if self.mode == \"min\" and path_bound + cost <= best_bound:", "break", "R-MODE"),
     ("single_constraint_per_pair", _S, "            var_constraints = constraints_for_variable(constraints, var)\n", "            var_constraints = constraints_for_variable(constraints, var)[:1]\n", "break", "R-NEXT"),
     ("partial_cost_returned", _S, "        pruned = False\n        for var, val, elt_cost in current_path:", "        pruned = False\n        found = None\n        for var, val, elt_cost in current_path:", "neutral"),
